@@ -31,7 +31,7 @@ The change should look like a plausible refactoring slip, optimisation or off-by
 
 Colleagues have ALREADY tried the following ideas; do NOT reuse any of them or a close variant:
 """ + ''.join(f'   - {a}\n' for a in avoid) + f"""
-Assume the project is also guarded by a strong randomized checker that snaps/processes millions of randomly generated inputs and compares the results with an exact independent oracle: random polygons of up to ~25 vertices in windows of a few pixels (also with vertices stored twice in a row), saws of sub-pixel teeth built to reach every branch of the zigzag removal, shells with edges millions of pixels long and holes next to their ends, but also long thin slivers, combs and spirals of hundreds of vertices, inlets and chains of ponds with thousands of vertices per ring, sheets with hundreds of holes, islands in lakes in islands several levels deep with holes listed in any order, shells pinched into interlocking lobes, polygons of up to 70 000 points, edges that run across most of the extent and graze pixel corners; on many grids: built-in sets (NetherlandsRDNewQuad, WebMercatorQuad, ETRS89 LAEA, ...) and translated copies of them, twin sets that share id, origin numbers, origin pointer, corner and root cell size but are different grids (other axis order, other root matrix size), copies of built-in sets with their informative members (boundingBox, orderedAxes) varied, synthetic sets with power-of-two and with two-decimal origins (both corner conventions, corners that truncate unevenly when converted to integers), sets up to 36 levels deep, sets far from the CRS origin (ordinates up to 7e8), tile widths that are not powers of two; windows also next to the corners, side middles and centre of the extent and on quadtree boundaries of every depth; random tile matrix subsets incl. repeated ids and gaps; inputs whose rings share one backing array; vertices outside the extent on one or two sides at any distance up to the largest float64; all flag combinations; every call repeated, repeated in fresh processes and repeated while other calls run concurrently (also under the race detector); random tile-matrix-set documents with 1-3 structural mutations incl. extreme integer ids, origins moved by one ulp, and text-level damage, decoded and re-encoded in long sequences within one process and through the file loader; random feature streams with 1-48 targets (ids also negative or sparse), up to 600 000 features, multipolygons of up to 20 000 parts, stalling sources and lagging targets; multi-table GeoPackages whose tables overlap, with unusual SRS rows, mixed-case type names and date/time attributes; the command line tool with 1-16 tile matrices per run, configured by flags or by environment variables; Z-order keys checked directly (also decode before any encode) and through the point index. Aim for a change that such a checker would most likely MISS: one that needs a structured or large input, a rare numeric coincidence, a specific history of earlier calls in the same process, an unusual but legal configuration, or two cooperating edits. Explain in NOTES.md why you think random inputs of that kind would not hit it. {HINT.get(pid, '')}
+Assume the project is also guarded by a strong randomized checker that snaps/processes millions of randomly generated inputs and compares the results with an exact independent oracle: random polygons of up to ~25 vertices in windows of a few pixels (also with vertices stored twice in a row), saws of sub-pixel teeth built to reach every branch of the zigzag removal, shells with edges millions of pixels long and holes next to their ends, but also long thin slivers, combs and spirals of hundreds of vertices, inlets and chains of ponds with thousands of vertices per ring, sheets with hundreds of holes, islands in lakes in islands several levels deep with holes listed in any order, shells pinched into interlocking lobes, polygons of up to 70 000 points, edges that run across most of the extent and graze pixel corners; on many grids: built-in sets (NetherlandsRDNewQuad, WebMercatorQuad, ETRS89 LAEA, ...) and translated copies of them, twin sets that share id, origin numbers, origin pointer, corner and root cell size but are different grids (other axis order, other root matrix size), copies of built-in sets with their informative members (boundingBox, orderedAxes) varied, synthetic sets with power-of-two and with two-decimal origins (both corner conventions, corners that truncate unevenly when converted to integers), sets up to 36 levels deep, sets far from the CRS origin (ordinates up to 7e8), tile widths that are not powers of two; windows also next to the corners, side middles and centre of the extent and on quadtree boundaries of every depth; random tile matrix subsets incl. repeated ids and gaps; inputs whose rings share one backing array; vertices outside the extent on one or two sides at any distance up to the largest float64; all flag combinations; every call repeated, repeated in fresh processes and repeated while other calls run concurrently (also under the race detector); random tile-matrix-set documents with 1-3 structural mutations incl. extreme integer ids, origins moved by one ulp, and text-level damage, decoded and re-encoded in long sequences within one process and through the file loader; random feature streams with 1-48 targets (ids also negative or sparse), up to 600 000 features, multipolygons of up to 20 000 parts, stalling sources and lagging targets; multi-table GeoPackages whose tables overlap, with unusual SRS rows, mixed-case type names and date/time attributes, under paths with characters that are special in URIs, globs and format strings; files that are replaced by other documents of equal length, time stamp and CRC-32; the command line tool with 1-16 tile matrices per run, configured by flags or by environment variables; Z-order keys checked directly (also decode before any encode) and through the point index. Aim for a change that such a checker would most likely MISS: one that needs a structured or large input, a rare numeric coincidence, a specific history of earlier calls in the same process, an unusual but legal configuration, or two cooperating edits. Explain in NOTES.md why you think random inputs of that kind would not hit it. {HINT.get(pid, '')}
 
 Deliver, all inside {wt}:
   1. the change applied to the working tree (leave it uncommitted);
